@@ -103,6 +103,35 @@ func cmdC05(args []string) error {
 		tw.emit(line)
 	}
 	rot := int(*seed) % len(usageSet)
+	sharedStage := func() {
+		// ---- the same key bytes, usage and plaintext under every etype whose keys have that length, in both orders, the key held
+		// in one buffer that is overwritten for every round (encryption is a function of its arguments and the confounder: nothing
+		// the library remembers about an earlier call - for another etype, or for other bytes in the same slice - may change a later one)
+		rounds := 6
+		if *tier == "thorough" {
+			rounds = 60
+		}
+		for _, grp := range [][]int32{{17, 19, 23}, {18, 20}, {16}} {
+			buf := make([]byte, 0, 32)
+			for round := 0; round < rounds; round++ {
+				order := append([]int32{}, grp...)
+				if round%2 == 1 {
+					for i, j := 0, len(order)-1; i < j; i, j = i+1, j-1 {
+						order[i], order[j] = order[j], order[i]
+					}
+				}
+				buf = append(buf[:0], randKey(r, order[0])...)
+				u := usageSet[(rot+round/2)%len(usageSet)] // two rounds in a row share the usage: only the key bytes in the buffer change
+				plain := rbytes(r, []int{0, 1, 16, 33, 100, 7}[round%6])
+				for rep := 0; rep < 2; rep++ {
+					for _, et := range order {
+						cell(et, mustEtype(et), buf, plain, u)
+					}
+				}
+			}
+		}
+	}
+	sharedStage() // first of all (whatever the library remembers, it remembers from the start of a process), and again after the grid
 	for _, et := range allEtypes {
 		e := mustEtype(et)
 		for _, n := range lens {
@@ -121,32 +150,7 @@ func cmdC05(args []string) error {
 			}
 		}
 	}
-	// ---- the same key bytes, usage and plaintext under every etype whose keys have that length, in both orders, the key held
-	// in one buffer that is overwritten for every round (encryption is a function of its arguments and the confounder: nothing
-	// the library remembers about an earlier call - for another etype, or for other bytes in the same slice - may change a later one)
-	rounds := 6
-	if *tier == "thorough" {
-		rounds = 60
-	}
-	for _, grp := range [][]int32{{17, 19, 23}, {18, 20}, {16}} {
-		buf := make([]byte, 0, 32)
-		for round := 0; round < rounds; round++ {
-			order := append([]int32{}, grp...)
-			if round%2 == 1 {
-				for i, j := 0, len(order)-1; i < j; i, j = i+1, j-1 {
-					order[i], order[j] = order[j], order[i]
-				}
-			}
-			buf = append(buf[:0], randKey(r, order[0])...)
-			u := usageSet[(rot+round/2)%len(usageSet)] // two rounds in a row share the usage: only the key bytes in the buffer change
-			plain := rbytes(r, []int{0, 1, 16, 33, 100, 7}[round%6])
-			for rep := 0; rep < 2; rep++ {
-				for _, et := range order {
-					cell(et, mustEtype(et), buf, plain, u)
-				}
-			}
-		}
-	}
+	sharedStage()
 	if *gen != "" {
 		err := readNDJSON(*gen, func(m map[string]interface{}) error {
 			et := int32(num(m, "et"))
